@@ -244,7 +244,8 @@ PROPS['C20'] = dict(
               'C20_filter_total', 'C20_filterLogs_total', 'C20_guard_needed', 'topicLoop_total', 'fact_filterlogs_guards', 'fact_basefee_guards', 'fact_one_base_fee', 'fact_maxgas_guard', 'fact_block_panic_sites', 'fact_consume_locks_across_send', 'fact_install_shape', 'fact_uninstall_shape', 'fact_join_indexes', 'fact_context_guarded'],
     engines=[dict(name='crash', test='TestEngineCrash', quick=250, thorough=600, thorough_seeds=3, no_model=True),
              dict(name='conc', test='TestEngineConc', quick=3, thorough=12, thorough_seeds=2, no_model=True, race_in_thorough=True),
-             dict(name='logfilter', test='TestEngineLogfilter', quick=3000, thorough=200000, thorough_seeds=3)],
+             dict(name='logfilter', test='TestEngineLogfilter', quick=3000, thorough=200000, thorough_seeds=3),
+             dict(name='staking', test='TestEngineStaking', quick=300, thorough=3000, thorough_seeds=2, no_model=True, own_oracles_only=True)],   # oracle C20-precompile-input-panics only: signed staking messages, valid signature, invalid content
     rule='E-crash: batches of 1-4 hostile transactions (16 classes: garbage / empty embedded Ethereum payloads, extreme numeric fields, every custom-precompile selector with random / truncated / saturated / far-offset calldata directly and through CALL / STATICCALL / DELEGATECALL / CALLCODE, mixed lanes, nested authz, bad addresses and coins, adversarial module messages, Ethereum message in the Cosmos lane, mutated valid bytes, random bytes, random init code with large access lists, foreign chain ids, value into module / precompile addresses, wrong declared sender) through CheckTx (new, recheck), PrepareProposal, ProcessProposal, FinalizeBlock + Commit with a recover sentinel outside BaseApp; gRPC queries (15 paths, adversarial and random request bytes, heights incl. negative and future); consensus-parameter sweeps (MaxGas -1,0,1,2,20999,21000,21001,1e6 x MaxBytes 1,200,default,-1) with blocks of valid transactions; a liveness block after every fifth batch and every sweep; isolation on two fresh instances of the application (same genesis, block 1 with one position holding two different failing transactions that leave no event). E-conc: the real EventSystem + memEventBus over the real CometBFT WSClient against an in-process websocket endpoint, in child processes: the two schedules of the protocol model forced through the verif schedule points, and 6-goroutine subscribe / unsubscribe stress with events for known and unknown queries (thorough: under the race detector). Non-trivial = every crash / conc line; distinct by op-line hash',
     assumptions=['crash-freedom for inputs outside the generators is NOT proved: E-crash is an exploration (labelled); the theorems cover isolation and totality in the block / fee-market / receipt models and the channel protocol of the event system',
                  'the SDK, CometBFT and go-ethereum code is exercised, not verified; memory exhaustion and the websocket server are out of scope',
